@@ -397,7 +397,101 @@ class SimCondition:
     notifyAll = notify_all
 
 
+class SimSemaphore:
+    """Cooperative counting semaphore for library code."""
+
+    def __init__(self, value=1):
+        if value < 0:
+            raise ValueError('semaphore initial value must be >= 0')
+        self._value = value
+        self._initial = value
+
+    def free_for(self, w):
+        return self._value > 0
+
+    def acquire(self, blocking=True, timeout=None):
+        s, me = SimRLock._me()
+        while self._value <= 0:
+            if not blocking:
+                return False
+            if s is None:
+                raise core.HarnessError(
+                    'cooperative semaphore contended outside a simulated run')
+            s.blocked[me] = self
+            s.lock_handovers += 1
+            try:
+                s._handover(me, 'sem')
+            finally:
+                s.blocked[me] = None
+        self._value -= 1
+        return True
+
+    def release(self, n=1):
+        if n < 1:
+            raise ValueError('n must be one or more')
+        self._value += n
+
+    __enter__ = acquire
+
+    def __exit__(self, *a):
+        self.release()
+
+
+class SimBoundedSemaphore(SimSemaphore):
+    def release(self, n=1):
+        if self._value + n > self._initial:
+            raise ValueError('Semaphore released too many times')
+        SimSemaphore.release(self, n)
+
+
+class SimEvent:
+    """Cooperative event for library code. A wait with a timeout is a pure
+    scheduling point (simulated time does not pass for threads), so it
+    returns the flag after giving every other worker the chance to run."""
+
+    def __init__(self):
+        self._flag = False
+
+    def free_for(self, w):
+        return self._flag
+
+    def is_set(self):
+        return self._flag
+
+    isSet = is_set
+
+    def set(self):
+        self._flag = True
+
+    def clear(self):
+        self._flag = False
+
+    def wait(self, timeout=None):
+        s, me = SimRLock._me()
+        if self._flag:
+            return True
+        if s is None:
+            if timeout is not None:
+                return self._flag
+            raise core.HarnessError(
+                'cooperative event waited on outside a simulated run')
+        s.lock_handovers += 1
+        if timeout is not None:
+            s._handover(me, 'event-timeout')
+            return self._flag
+        while not self._flag:
+            s.blocked[me] = self
+            try:
+                s._handover(me, 'event')
+            finally:
+                s.blocked[me] = None
+        return True
+
+
 _RealCondition = threading.Condition
+_RealSemaphore = threading.Semaphore
+_RealBoundedSemaphore = threading.BoundedSemaphore
+_RealEvent = threading.Event
 _installed = False
 
 
@@ -427,6 +521,22 @@ def install_locks():
             return SimCondition(lock)
         return _RealCondition(lock)
 
+    def _from_lib():
+        return sys._getframe(2).f_code.co_filename.startswith(lib)
+
+    def sem_factory(value=1):
+        return SimSemaphore(value) if _from_lib() else _RealSemaphore(value)
+
+    def bsem_factory(value=1):
+        return (SimBoundedSemaphore(value) if _from_lib()
+                else _RealBoundedSemaphore(value))
+
+    def event_factory():
+        return SimEvent() if _from_lib() else _RealEvent()
+
     threading.RLock = rlock_factory
     threading.Lock = lock_factory
     threading.Condition = cond_factory
+    threading.Semaphore = sem_factory
+    threading.BoundedSemaphore = bsem_factory
+    threading.Event = event_factory
